@@ -115,6 +115,85 @@ def load_units():
     return units
 
 
+# --------------------------------------------------------------------------- unit-level pre-normalisations
+
+_LOG_IF = re.compile(r'(\} else )?if prefs\.verbose\(Verbosity::\w+\) \{')
+
+
+def drop_logging(txt):
+    """Pre-normalisation `drop_logging` (applied to the pinned AND the current text of a unit before alignment):
+    statements `if prefs.verbose(..) { eprintln!(..); }` (also as an `else if` tail) whose block holds nothing but one
+    `eprintln!`, and `let start_x = std::time::Instant::now();` timers that only feed such messages, are removed.
+    Logging has no effect on any contract; `eprintln!` formatting is outside the Verus subset. A block that contains
+    anything else is left in place (and then fails to verify as unsupported, i.e. undecided)."""
+    out = []
+    i = 0
+    while True:
+        m = _LOG_IF.search(txt, i)
+        if not m:
+            out.append(txt[i:])
+            break
+        ob = m.end() - 1
+        try:
+            cb = rustscan.match_brace(txt, ob)
+        except rustscan.ScanError:
+            out.append(txt[i:])
+            break
+        body = txt[ob + 1:cb].strip()
+        if body.startswith('eprintln!(') and body.endswith(');') and body.count('eprintln!(') == 1:
+            # the macro call must extend to the end of the block
+            op = body.index('(')
+            depth = 0
+            end = None
+            for k, c in rustscan.iter_code(body, op):
+                if c == '(':
+                    depth += 1
+                elif c == ')':
+                    depth -= 1
+                    if depth == 0:
+                        end = k
+                        break
+            only_log = end is not None and body[end + 1:].strip() == ';'
+        else:
+            only_log = False
+        if not only_log:
+            out.append(txt[i:m.end()])
+            i = m.end()
+            continue
+        if m.group(1):
+            # `} else if verbose {..}` -> `}`; a following `else` cannot exist for these tails in practice
+            rest = txt[cb + 1:].lstrip()
+            if rest.startswith('else'):
+                out.append(txt[i:m.end()])
+                i = m.end()
+                continue
+            out.append(txt[i:m.start()] + '}')
+            i = cb + 1
+        else:
+            ls = txt.rfind('\n', 0, m.start()) + 1
+            rest = txt[cb + 1:].lstrip(' \t')
+            if txt[ls:m.start()].strip() != '' or rest.startswith('else'):
+                out.append(txt[i:m.end()])
+                i = m.end()
+                continue
+            out.append(txt[i:ls])
+            i = cb + 1
+            if txt[i:i + 1] == '\n':
+                i += 1
+    res = ''.join(out)
+    res = re.sub(r'^[ \t]*let start_\w+ = std::time::Instant::now\(\);\n', '', res, flags=re.M)
+    return res
+
+
+PRE = {'drop_logging': drop_logging}
+
+
+def apply_pre(txt, names):
+    for n in names or []:
+        txt = PRE[n](txt)
+    return txt
+
+
 # --------------------------------------------------------------------------- line transformers
 
 def _sub_get_unchecked(line):
@@ -239,7 +318,12 @@ def _t_rvec(line, arg=None):
     return '%sfor verif_i_%s in 0..%s.len()' % (ind, x, v)
 
 
-TRANSFORMERS = [('Rvec', _t_rvec), ('Rone', _t_one_shl), ('Rdiv', _t_opassign), ('R10', _t_r10), ('Rit', _t_forit), ('Rfor', _t_forname), ('R8', _t_r8), ('Rsort', _t_sort), ('R7', _t_r7), ('R1', _t_r1), ('R1u', _t_unsafe), ('ret', _t_ret), ('brace', _t_brace)]
+def _t_verb(line, arg=None):
+    """Rverb: `prefs.verbosity` -> `ol_verbosity(prefs)` (field of a struct that stays opaque to Verus: outlined accessor)"""
+    return re.sub(r'\bprefs\.verbosity\b', 'ol_verbosity(prefs)', line)
+
+
+TRANSFORMERS = [('Rverb', _t_verb), ('Rvec', _t_rvec), ('Rone', _t_one_shl), ('Rdiv', _t_opassign), ('R10', _t_r10), ('Rit', _t_forit), ('Rfor', _t_forname), ('R8', _t_r8), ('Rsort', _t_sort), ('R7', _t_r7), ('R1', _t_r1), ('R1u', _t_unsafe), ('ret', _t_ret), ('brace', _t_brace)]
 
 
 def infer_transform(pinned_line, ann_line):
@@ -276,6 +360,7 @@ def key(line):
     if s == '{':
         return '<<brace>>'
     s = re.sub(r'ol_uint_one_shl\(([^()]*)\)', r'Uint::ONE << (\1)', s)
+    s = s.replace('ol_verbosity(prefs)', 'prefs.verbosity')
     md = re.match(r'^(\w+) = (\w+) / (.+);$', s)
     if md and md.group(1) == md.group(2):
         return '%s /= %s;' % (md.group(1), md.group(3))
@@ -566,13 +651,14 @@ def apply_overlay(repo_src_dir, out_src_dir, units, canary=False, only_files=Non
             except rustscan.ScanError as ex:
                 raise Undecided("unit %s: %s" % (u.id, ex), unit=u.id)
             cur = src[s:e]
-            script = Script(u.pinned.split('\n'), u.ann.split('\n'))
+            pre = u.meta.get('pre')
+            script = Script(apply_pre(u.pinned, pre).split('\n'), u.ann.split('\n'))
             if cur == u.pinned:
                 new = u.ann
                 status = 'pinned'
             else:
                 try:
-                    new = '\n'.join(script.replay_on(cur.split('\n')))
+                    new = '\n'.join(script.replay_on(apply_pre(cur, pre).split('\n')))
                 except Undecided as ex:
                     raise Undecided("unit %s: %s" % (u.id, ex), unit=u.id)
                 status = 'transplanted'
@@ -592,7 +678,7 @@ def apply_overlay(repo_src_dir, out_src_dir, units, canary=False, only_files=Non
                 text = ''
             repl.append((s, e, text))
             report[u.id] = {'id': u.id, 'file': file, 'status': status, 'sha_current': sha(cur),
-                            'sha_pinned': sha(u.pinned), 'edits': script.edits(), 'props': u.props,
+                            'sha_pinned': sha(u.pinned), 'edits': ([{'rule': 'pre:' + x, 'before': 'logging statements', 'after': '(dropped)'} for x in (pre or [])] + script.edits()), 'props': u.props,
                             'kind': u.kind}
         repl.sort()
         for k in range(1, len(repl)):
@@ -649,7 +735,7 @@ def line_map(out_src_dir, files):
 
 # --------------------------------------------------------------------------- capture (authoring)
 
-def capture(work_src_dir, repo_src_dir, file, name, kind='fn', container=None, nth=0, props=None, canary=None, hoist=None):
+def capture(work_src_dir, repo_src_dir, file, name, kind='fn', container=None, nth=0, props=None, canary=None, hoist=None, pre=None):
     rel = file[4:]
     wsrc = open(os.path.join(work_src_dir, rel)).read()
     rsrc = open(os.path.join(repo_src_dir, rel)).read()
@@ -670,6 +756,10 @@ def capture(work_src_dir, repo_src_dir, file, name, kind='fn', container=None, n
             meta['canary'] = old.meta['canary']
         if 'hoist' in old.meta:
             meta['hoist'] = old.meta['hoist']
+        if 'pre' in old.meta:
+            meta['pre'] = old.meta['pre']
+    if pre:
+        meta['pre'] = pre
     if props is not None:
         meta['props'] = props
     if canary is not None:
@@ -678,8 +768,9 @@ def capture(work_src_dir, repo_src_dir, file, name, kind='fn', container=None, n
         meta['hoist'] = True
     meta.setdefault('props', [])
     # self-check: replaying the script on the pinned text must give the annotated text
-    sc = Script(pinned.split('\n'), ann.split('\n'))
-    back = '\n'.join(sc.replay_on(pinned.split('\n')))
+    pn = apply_pre(pinned, meta.get('pre'))
+    sc = Script(pn.split('\n'), ann.split('\n'))
+    back = '\n'.join(sc.replay_on(pn.split('\n')))
     if back != ann:
         import sys
         d = '\n'.join(difflib.unified_diff(ann.split('\n'), back.split('\n'), 'annotated', 'replayed', lineterm=''))
